@@ -17,6 +17,8 @@ import (
 	ct "github.com/google/certificate-transparency-go"
 	"github.com/google/certificate-transparency-go/trillian/ctfe"
 	"github.com/google/certificate-transparency-go/trillian/ctfe/cache"
+	"google.golang.org/grpc/codes"
+	"google.golang.org/grpc/status"
 	"pgregory.net/rapid"
 
 	"verif/internal/ctfex"
@@ -74,12 +76,30 @@ func genSpec(t *rapid.T, label string) world.ChainSpec {
 	return s
 }
 
+// widths of unknown chain hashes (octets); 32 is a well-formed hash nobody stored
+var hashWidths = []int{32, 32, 1, 16, 31, 33, 64, 255, 256}
+
+// storageErr is the error a faulty storage read returns.
+func storageErr(kind int) error {
+	switch kind % 5 {
+	case 1:
+		return fmt.Errorf("storage: FindByKey: %w", context.DeadlineExceeded)
+	case 2:
+		return status.Error(codes.DeadlineExceeded, "injected storage failure (FindByKey)")
+	case 3:
+		return fmt.Errorf("storage: FindByKey: %w", context.Canceled)
+	case 4:
+		return status.Error(codes.Unavailable, "injected storage failure (FindByKey)")
+	}
+	return errors.New("injected storage failure (FindByKey)")
+}
+
 var corruptions = []string{"truncate", "extend", "flip", "swap", "empty", "drop-cert"}
 
 func genSteps(t *rapid.T, n int, faults bool) []Step {
 	var out []Step
 	for i := 0; i < n; i++ {
-		k := rapid.IntRange(0, 23).Draw(t, "kind")
+		k := rapid.IntRange(0, 24).Draw(t, "kind")
 		switch {
 		case k <= 6:
 			s := genSpec(t, fmt.Sprintf("s%d", i))
@@ -106,9 +126,14 @@ func genSteps(t *rapid.T, n int, faults bool) []Step {
 			case 19:
 				out = append(out, Step{Kind: "fail-add", A: rapid.IntRange(0, 2).Draw(t, "n")})
 			case 20:
-				out = append(out, Step{Kind: "fail-get", A: rapid.IntRange(0, 2).Draw(t, "n")})
+				// B: the error class the storage reports (plain, wrapped / status deadline, cancelled, unavailable)
+				out = append(out, Step{Kind: "fail-get", A: rapid.IntRange(0, 2).Draw(t, "n"), B: rapid.IntRange(0, 4).Draw(t, "errkind")})
 			case 21:
 				out = append(out, Step{Kind: "delete", A: rapid.IntRange(0, 9).Draw(t, "k")})
+			case 24:
+				// an entry whose extra_data names a chain hash that storage has never seen (A: index into hashWidths)
+				sp := genSpec(t, fmt.Sprintf("f%d", i))
+				out = append(out, Step{Kind: "foreign-hash", Spec: &sp, A: rapid.IntRange(0, len(hashWidths)-1).Draw(t, "width")})
 			case 22:
 				out = append(out, Step{Kind: "corrupt", A: rapid.IntRange(0, 9).Draw(t, "k"), B: rapid.IntRange(0, 5000).Draw(t, "pos"), How: rapid.SampledFrom(corruptions).Draw(t, "how")})
 			default:
@@ -205,12 +230,13 @@ type rig struct {
 	damaged      map[string]bool
 	cacheCorrupt bool
 	chainKeyOf   map[string]string // leaf_input -> chain key of the entry (submitted entries only)
+	foreign      map[string]bool   // leaf_input of entries whose extra_data names a hash that storage never held
 	want             map[string][][]byte // leaf_input -> acceptable reference extra_data values (two precertificates may share a TBS and differ in signature)
 	mu               sync.Mutex
 }
 
 func newRig(t *testing.T, c Case) *rig {
-	r := &rig{beD: reflog.New(1, 1), beI: reflog.New(1, 1), store: memstore.New(), clock: ctfex.NewClock(time.UnixMilli(1700000000123)), want: map[string][][]byte{}, damaged: map[string]bool{}, chainKeyOf: map[string]string{}}
+	r := &rig{beD: reflog.New(1, 1), beI: reflog.New(1, 1), store: memstore.New(), clock: ctfex.NewClock(time.UnixMilli(1700000000123)), want: map[string][][]byte{}, damaged: map[string]bool{}, chainKeyOf: map[string]string{}, foreign: map[string]bool{}}
 	key := keys.Pick("p256", 5)
 	var err error
 	r.direct, err = ctfex.New(ctfex.Opts{LogKey: key, Roots: world.Roots(), Backend: r.beD, Clock: r.clock})
@@ -366,6 +392,28 @@ func (r *rig) compareRead(v *harness.Verdict, path, query string, isEAP bool) {
 			v.Failf("indirect-serves-more", "%s?%s: direct %d, indirect 200", path, query, d.Status)
 		}
 		return
+	}
+	if len(r.foreign) > 0 {
+		var de []entry
+		if isEAP {
+			var a ct.GetEntryAndProofResponse
+			if json.Unmarshal(d.Body, &a) == nil {
+				de = []entry{{a.LeafInput, a.ExtraData}}
+			}
+		} else {
+			de, _ = parseEntries(d.Body)
+		}
+		for _, e := range de {
+			if r.foreign[string(e.leaf)] {
+				// the range holds an entry whose chain hash storage does not know: an error, never chain data
+				if i.Status == 200 {
+					v.Failf("unknown-hash-served", "%s?%s: an entry whose extra_data names a chain hash unknown to storage was answered 200 %q", path, query, trunc(i.Body))
+				} else {
+					v.Class("unknown-hash-refused")
+				}
+				return
+			}
+		}
 	}
 	if i.Status != 200 {
 		// an error answer is legitimate only while a fault is in effect for THIS request: a one-shot fault
@@ -579,18 +627,41 @@ func check(t *testing.T, c Case) (v harness.Verdict) {
 			at := r.store.GetCalls + s.A
 			r.getAt = append(r.getAt, at)
 			firedG := r.getAt
+			gerr := storageErr(s.B)
 			r.store.FailGet = func(n int) error {
 				for _, x := range firedG {
 					if n == x {
-						return errors.New("injected storage failure (FindByKey)")
+						return gerr
 					}
-				}
-				if false {
-					return errors.New("injected storage failure (FindByKey)")
 				}
 				return nil
 			}
+			v.Class(fmt.Sprintf("read-fault-kind:%d", s.B%5))
 			r.faulted = true
+			v.NonTrivial = true
+		case "foreign-hash":
+			b := world.Build(*s.Spec)
+			lv, _ := rfc6962.EncodeLeaf(rfc6962.Leaf{Timestamp: uint64(1500000000000 + len(r.foreign)), Entry: b.Entry()})
+			w := hashWidths[s.A%len(hashWidths)]
+			h := make([]byte, w)
+			for i := range h {
+				h[i] = byte(i*37+w) | 1
+			}
+			var extra []byte
+			if b.Spec.Precert {
+				l := len(b.Full[0])
+				extra = append(append(extra, byte(l>>16), byte(l>>8), byte(l)), b.Full[0]...)
+			}
+			extra = append(append(extra, byte(w>>8), byte(w)), h...)
+			seqNs += 1000
+			r.beD.Sequence(-1, seqNs)
+			r.beI.Sequence(-1, seqNs)
+			r.beD.AppendRaw(lv, extra)
+			r.beI.AppendRaw(lv, extra)
+			r.beD.Publish(seqNs + 1)
+			r.beI.Publish(seqNs + 1)
+			r.foreign[string(lv)] = true
+			v.Class(fmt.Sprintf("unknown-hash-width:%d", w))
 			v.NonTrivial = true
 		case "delete":
 			if ks := r.sortedKeys(); len(ks) > 0 {
